@@ -441,8 +441,11 @@ def write_evidence(mod, prop, tier, verif_seed, records, corpus_run, det, report
         "wall_s": round(wall_total, 2),
         "violations": int(reported),
     }
-    os.makedirs(os.path.join(VERIF, "evidence"), exist_ok=True)
-    path = os.path.join(VERIF, "evidence", prop + ".json")
+    # evaluations of seeded changes (tools/eval_seeded.py) point this elsewhere so that evidence/ only ever holds
+    # what a check of the real tree covered
+    evdir = os.environ.get("VERIF_EVIDENCE_DIR") or os.path.join(VERIF, "evidence")
+    os.makedirs(evdir, exist_ok=True)
+    path = os.path.join(evdir, prop + ".json")
     tmp = path + ".tmp"
     with open(tmp, "w") as f:
         json.dump(ev, f, indent=1, sort_keys=True)
